@@ -15,10 +15,10 @@ PID = "C02"
 # corpus: shape(values) -> (statement, "core"|"orm")
 
 VALUESETS = [
-    dict(i=5, j=7, s="ab", lst=[1, 2], lst2=[9]),
-    dict(i=2 ** 31, j=-1, s="", lst=[3], lst2=[4, 5, 6]),
-    dict(i=0, j=2 ** 63 - 1, s="x'y%z", lst=[], lst2=[7, 8]),
-    dict(i=None, j=3, s=None, lst=[None, 2], lst2=[1]),
+    dict(i=5, j=7, s="ab", lst=[1, 2], lst2=[9], scale=2, length=10),
+    dict(i=2 ** 31, j=-1, s="", lst=[3], lst2=[4, 5, 6], scale=0, length=0),
+    dict(i=0, j=2 ** 63 - 1, s="x'y%z", lst=[], lst2=[7, 8], scale=None, length=None),
+    dict(i=None, j=3, s=None, lst=[None, 2], lst2=[1], scale=4, length=20),
 ]
 
 
@@ -134,6 +134,25 @@ def _build_corpus():
     @core
     def between_label(v):
         return sa.select((t.c.x + v["j"]).label("k")).where(t.c.x.between(v["j"], v["j"] if v["j"] is not None else 0))
+
+    @core
+    def cast_numeric(v):
+        # type arguments are part of the statement structure: 0, None and 2 must not share a cached compilation
+        return sa.select(sa.cast(t.c.x, sa.Numeric(10, v["scale"])), sa.cast(t.c.s, sa.String(v["length"])))
+
+    @core
+    def typed_literal(v):
+        return sa.select(sa.literal(v["j"], sa.Numeric(12, v["scale"])) + t.c.x, sa.type_coerce(t.c.s, sa.String(v["length"])) == v["s"])
+
+    @core
+    def nested_params(v):
+        inner = sa.select(t.c.id).where(t.c.x == sa.bindparam("p", 1)).params(p=v["j"]).subquery()
+        return sa.select(inner.c.id).where(inner.c.id > sa.bindparam("q", 2)).params(q=v["i"] if v["i"] is not None else 0)
+
+    @core
+    def nested_params_same_name(v):
+        inner = sa.select(t.c.id).where(t.c.x == sa.bindparam("p", 1)).params(p=v["j"]).scalar_subquery()
+        return sa.select(t.c.x).where(t.c.id == inner, t.c.x != sa.bindparam("p")).params(p=7 if v["i"] is None else v["i"])
 
     @ormq
     def orm_select(v):
